@@ -34,7 +34,7 @@ HARNESS_DIR = VERIF / "harness"
 MODEL_DIR = VERIF / "model" / "hashbrown"
 SCRATCH_BASE = Path(os.environ.get("VERIF_SCRATCH", "/var/tmp"))
 NCPU = os.cpu_count() or 4
-MEM_CAP_GB = int(os.environ.get("VERIF_MEM_GB", "14"))
+MEM_CAP_GB = int(os.environ.get("VERIF_MEM_GB", "12"))
 
 INJECT = (
     '\n#[cfg(any(kani, lru_mem_verif_replay))]\n'
@@ -63,6 +63,7 @@ class Harness:
         self.name, self.module, self.unwind = name, module, unwind
         self.quick, self.thorough, self.timeout, self.kind = quick, thorough, timeout, kind
         self.line = line
+        self.solver = "minisat"
 
     @property
     def path(self):
@@ -83,7 +84,11 @@ def load_registry():
             kv = dict(x.split("=", 1) for x in meta.split() if "=" in x)
             q = [p for p in kv.get("q", "").split(",") if p]
             t = [p for p in kv.get("t", "").split(",") if p]
-            reg.append(Harness(name, f.stem, unwind, q, q + t, int(kv.get("to", "900")), kv.get("kind", "step"), body))
+            h = Harness(name, f.stem, unwind, q, q + t, int(kv.get("to", "900")), kv.get("kind", "step"), body)
+            h.solver = kv.get("solver", "minisat")
+            h.args = [a for a in kv.get("args", "").split(",") if a]
+            h.recbound = int(kv.get("recbound", "0"))
+            reg.append(h)
     return reg
 
 
@@ -189,29 +194,95 @@ def parse_kani(out):
 
 
 def run_kani(crate, scratch, h, prop, extra_args=(), tag="", extra_cfg=(), timeout_factor=1):
-    tgt = scratch / "tgt" / (h.name + tag)
+    """Runs one harness; `solver=portfolio` races minisat against cadical and
+    takes the first run that reaches a verdict."""
+    solver = os.environ.get("VERIF_SOLVER", h.solver)
+    solvers = ["minisat", "cadical"] if solver == "portfolio" else [solver]
     env = dict(os.environ)
     env["RUSTFLAGS"] = " ".join(["--cfg", prop] + ["--cfg %s" % c for c in extra_cfg] + ["-A", "warnings"])
     env["CARGO_NET_OFFLINE"] = "true"
-    env["CARGO_TARGET_DIR"] = str(tgt)
-    cmd = ["cargo", "kani", "--harness", h.path, "--exact", "--verbose", "--target-dir", str(tgt)] + list(extra_args)
+    timeout = h.timeout * timeout_factor * (3 if os.environ.get("VERIF_SLOW") else 1)
+    procs = []
     t0 = time.time()
-    p = subprocess.Popen(cmd, cwd=crate, env=env, stdout=subprocess.PIPE, stderr=subprocess.STDOUT, text=True, preexec_fn=_limits)
+    for sv in solvers:
+        tgt = scratch / "tgt" / (h.name + tag + "-" + sv)
+        logf = scratch / ("log-%s%s-%s.txt" % (h.name, tag, sv))
+        cmd = ["cargo", "kani", "--harness", h.path, "--exact", "--verbose", "--solver", sv, "--target-dir", str(tgt)] + list(h.args) + list(extra_args)
+        e2 = dict(env)
+        e2["CARGO_TARGET_DIR"] = str(tgt)
+        fh = open(logf, "w")
+        p = subprocess.Popen(cmd, cwd=crate, env=e2, stdout=fh, stderr=subprocess.STDOUT, text=True, preexec_fn=_limits)
+        procs.append((sv, p, tgt, logf, fh))
+    winner = None
     timed_out = False
-    try:
-        out, _ = p.communicate(timeout=h.timeout * timeout_factor * (3 if os.environ.get("VERIF_SLOW") else 1))
-    except subprocess.TimeoutExpired:
-        timed_out = True
-        try:
-            os.killpg(p.pid, 9)
-        except ProcessLookupError:
-            pass
-        out, _ = p.communicate()
+    while winner is None:
+        alive = False
+        for sv, p, tgt, logf, fh in procs:
+            rc = p.poll()
+            if rc is None:
+                alive = True
+                continue
+            out = logf.read_text(errors="replace")
+            done = re.search(r"^VERIFICATION:- ", out, re.M) and re.search(r"^Check 1: ", out, re.M)
+            if done or len(procs) == 1:
+                winner = (sv, p, out)
+                break
+            if all(q.poll() is not None for _, q, _, _, _ in procs):
+                winner = (sv, p, out)  # every solver ended without a complete result
+                break
+        if winner or not alive:
+            break
+        if time.time() - t0 > timeout:
+            timed_out = True
+            break
+        time.sleep(0.5)
+    if winner is None:
+        # all finished without verdict, or timeout: report the first one's output
+        sv, p, tgt, logf, fh = procs[0]
+        winner = (sv, p, None)
+    for sv, p, tgt, logf, fh in procs:
+        if p.poll() is None:
+            try:
+                os.killpg(p.pid, 9)
+            except ProcessLookupError:
+                pass
+            p.wait()
+        fh.close()
+    out = winner[2]
+    if out is None:
+        out = procs[0][3].read_text(errors="replace")
     wall = time.time() - t0
-    shutil.rmtree(tgt, ignore_errors=True)
+    for sv, p, tgt, logf, fh in procs:
+        shutil.rmtree(tgt, ignore_errors=True)
+        if not os.environ.get("VERIF_KEEP"):
+            try:
+                logf.unlink()
+            except OSError:
+                pass
     res = parse_kani(out)
-    res.update({"harness": h.name, "wall": wall, "timed_out": timed_out, "rc": p.returncode, "raw": out})
+    res.update({"harness": h.name, "wall": wall, "timed_out": timed_out, "rc": winner[1].returncode, "raw": out, "solver": winner[0]})
     return res
+
+
+def run_harness(crate, scratch, h, prop):
+    """One harness, including the second pass for harnesses with a recursion
+    bound (`recbound=`): pass 1 collects the crate's own functions for which
+    CBMC reports "Unwinding recursion"; pass 2 bounds exactly those at
+    `recbound` while loops keep the global bound, so that a recursion whose
+    depth grows with the element count fails its recursion unwinding assertion."""
+    r = run_kani(crate, scratch, h, prop)
+    if not h.recbound or r["verdict"] is None:
+        return r
+    names = set(re.findall(r"Unwinding recursion (\S+) iteration", r["raw"]))
+    own = sorted(n for n in names if "lru_mem" in n and "verif_harness" not in n)
+    r["recursive_functions"] = own
+    if not own:
+        return r
+    uw = ",".join("%s:%d" % (n, h.recbound) for n in own)
+    r2 = run_kani(crate, scratch, h, prop, ["-Z", "unstable-options", "--cbmc-args", "--unwindset", uw], tag="-rec")
+    r2["recursive_functions"] = own
+    r2["wall"] += r["wall"]
+    return r2
 
 
 # ---------------------------------------------------------------------------
@@ -230,22 +301,38 @@ def classify(res, prop, h):
     notes, failures = [], []
     if res["timed_out"]:
         return {"status": "inconclusive", "failures": [], "notes": ["timeout after %ds" % h.timeout]}
+    if res["verdict"] is not None and not res["checks"]:
+        res["verdict"] = None
     if res["verdict"] is None:
         tail = "\n".join(res["raw"].splitlines()[-15:])
         kind = "harness build error" if "error" in res["raw"] and "Checking harness" not in res["raw"] else "solver did not finish (out of memory or crash)"
         return {"status": "inconclusive", "failures": [], "notes": [kind + ":\n" + tail]}
     inconclusive = False
+    end_seen = False
     for c in res["checks"]:
         st = c["status"]
         if ".cover." in c["name"] or st in ("SATISFIED", "UNSATISFIABLE"):
-            if st != "SATISFIED":
+            if "END-OF-HARNESS" in c["desc"]:
+                end_seen = end_seen or st == "SATISFIED"
+            elif st == "UNSATISFIABLE":
                 inconclusive = True
                 notes.append("cover goal not satisfied (%s): %s" % (st, c["desc"]))
             continue
         if st in ("SUCCESS", "UNREACHABLE"):
             continue
+        if st == "ERROR":
+            if not any("CBMC reported an error" in n for n in notes):
+                notes.append("CBMC reported an error (out of memory or solver crash): checks left undetermined")
+            inconclusive = True
+            continue
         # FAILURE / UNDETERMINED
         tg = tags_of(c["desc"])
+        if h.recbound and "recursion" in c["desc"] and st == "FAILURE":
+            if prop == "C08":
+                failures.append(dict(c, cls="recursion"))
+            else:
+                notes.append("recursion depth grows with the input (decided by C08): %s" % c["loc"])
+            continue
         if "unwinding assertion" in c["desc"] or "recursion unwinding" in c["desc"]:
             if st == "FAILURE":
                 inconclusive = True
@@ -270,6 +357,9 @@ def classify(res, prop, h):
             notes.append("built-in check failed (decided by C07): %s @ %s" % (c["desc"], c["loc"]))
     if failures:
         return {"status": "fail", "failures": failures, "notes": notes}
+    if not end_seen and res["verdict"] == "SUCCESSFUL":
+        inconclusive = True
+        notes.append("vacuity: the end of the harness is not reachable (END-OF-HARNESS cover not satisfied)")
     if inconclusive:
         return {"status": "inconclusive", "failures": [], "notes": notes}
     if res["verdict"] != "SUCCESSFUL" and not notes:
@@ -382,6 +472,10 @@ def check_property(prop, tier, seed):
     t_start = time.time()
     reg = load_registry()
     sel = [h for h in reg if prop in (h.quick if tier == "quick" else h.thorough)]
+    force = os.environ.get("VERIF_HARNESSES")
+    if force:
+        pats = force.split(",")
+        sel = [h for h in reg if any(fnmatch.fnmatch(h.name, p) for p in pats)]
     only = os.environ.get("VERIF_ONLY")
     if only:
         sel = [h for h in sel if fnmatch.fnmatch(h.name, only)]
@@ -405,14 +499,14 @@ def _check_property(prop, tier, seed, sel, scratch, t_start):
     log("[%s/%s] %d harnesses, %d parallel, scratch %s" % (prop, tier, len(sel), workers, scratch))
     results = {}
     with cf.ThreadPoolExecutor(max_workers=workers) as ex:
-        futs = {ex.submit(run_kani, crate, scratch, h, prop): h for h in sorted(sel, key=lambda h: -h.timeout)}
+        futs = {ex.submit(run_harness, crate, scratch, h, prop): h for h in sorted(sel, key=lambda h: -h.timeout)}
         for fu in cf.as_completed(futs):
             h = futs[fu]
             r = fu.result()
             results[h.name] = r
             cl = classify(r, prop, h)
             r["class"] = cl
-            log("  %-34s %-12s wall %6.1fs solver %6.1fs checks %d" % (h.name, cl["status"], r["wall"], r["solver_s"], len(r["checks"])))
+            log("  %-34s %-12s wall %6.1fs solver %6.1fs (%s) checks %d" % (h.name, cl["status"], r["wall"], r["solver_s"], r.get("solver"), len(r["checks"])))
             for n in cl["notes"]:
                 log("      note: " + n.splitlines()[0])
 
@@ -505,7 +599,7 @@ def write_evidence(prop, tier, seed, sel, results, violations, known, inconclusi
             "harness": h.name, "call": h.line, "unwind": h.unwind, "status": r["class"]["status"],
             "cbmc_checks": len(r["checks"]), "tagged_assertions": len(mine), "tagged_discharged": len(ok), "tagged_unreachable_failure_branches": len(unreach),
             "cover_goals_satisfied": len(cov), "sat_calls": r["sat_calls"], "variables": r["variables"], "clauses": r["clauses"],
-            "symex_s": round(r["symex_s"], 2), "solver_s": round(r["solver_s"], 2), "wall_s": round(r["wall"], 1),
+            "symex_s": round(r["symex_s"], 2), "solver_s": round(r["solver_s"], 2), "wall_s": round(r["wall"], 1), "sat_solver": r.get("solver"),
         })
     if not samples:
         samples = [{"harness": h.name, "call": h.line} for h in sel[:3]]
@@ -519,7 +613,7 @@ def write_evidence(prop, tier, seed, sel, results, violations, known, inconclusi
             "distinct_nontrivial": tagged_ok + covers_ok,
             "rule": "evaluations = CBMC properties decided over all harnesses of this run (tagged assertions, cover goals, built-in pointer/overflow/unwinding checks); distinct_nontrivial = distinct (harness, assertion) pairs tagged with this property that are reachable and were proven for every symbolic input within the bounds, plus satisfied cover goals (reachability witnesses)",
             "samples": samples,
-            "engine": "Kani 0.68.0 / CBMC 6.11.0 / CaDiCaL, bounded symbolic execution of the real lru-mem code (MIR -> goto), hashbrown RawTable replaced by the contract model",
+            "engine": "Kani 0.68.0 / CBMC 6.11.0 / MiniSat 2 (cadical where a harness says so), bounded symbolic execution of the real lru-mem code (MIR -> goto), hashbrown RawTable replaced by the contract model",
             "functions_encoded": functions_encoded(results.values()),
             "harnesses": per_h,
             "queries_discharged": sum(r["sat_calls"] for r in results.values()),
@@ -534,6 +628,8 @@ def write_evidence(prop, tier, seed, sel, results, violations, known, inconclusi
         "wall_s": round(wall, 1),
         "violations": len(violations),
     }
+    if os.environ.get("VERIF_HARNESSES") or os.environ.get("VERIF_ONLY") or os.environ.get("VERIF_NO_EVIDENCE"):
+        return  # partial / experimental runs do not overwrite the evidence file
     (VERIF / "evidence").mkdir(exist_ok=True)
     (VERIF / "evidence" / ("%s.json" % prop)).write_text(json.dumps(ev, indent=1))
 
